@@ -3,7 +3,7 @@
     artifact run without interruption. *)
 From Coq Require Import ZArith NArith List Bool Lia.
 From CB Require Import Common.IntN Wasm.Syntax Wasm.Sem Wasm.Compile Wasm.Machine
-     Wasm.ArtifactCodec Wasm.ArtifactCodecProofs Wasm.ArtifactView Wasm.Resume Wasm.ResumeProofs.
+     Wasm.ArtifactCodec Wasm.ArtifactCodecProofs Wasm.ArtifactView Wasm.ArtifactViewProofs Wasm.Resume Wasm.ResumeProofs.
 Import ListNotations.
 
 (** the reloaded record IS the stored record, hence every function of it agrees: [Machine.mrun],
@@ -54,4 +54,28 @@ Proof.
   rewrite direct_refines_machine_thm.
   destruct (init_state (to_machine a) entry args) as [st0|]; [|reflexivity].
   rewrite resume_equiv_thm by exact Hle. reflexivity.
+Qed.
+
+(** the same for the artifact of a compiled module: the stored record [s_artifact_of] and the machine
+    artifact [build_artifact] of C01 are the same object ([to_machine_s_artifact_of_thm]), so: compile,
+    serialise, parse, run under any interrupt schedule = [Machine.mrun] on the artifact C01's layers
+    (i)/(ii) tie to the implementation *)
+Theorem compiled_stored_resumed_equiv_thm : forall cm m elem_shift names exports code sa art mhost choose rounds fuel entry args,
+  view_okb cm m names code = true ->
+  s_artifact_of cm m elem_shift names exports code = Some sa ->
+  wf_artifact sa -> (fuel <= rounds)%nat ->
+  build_artifact cm m elem_shift code = Some art ->
+  match parse_artifact (output_artifact sa) with
+  | Some (sa', []) =>
+      match init_state (to_machine sa') entry args with
+      | Some st0 => finish (to_machine sa') entry
+                      (r_out (m_drive unit (to_machine sa') (lift_host mhost) choose rounds fuel tt st0))
+      | None => MTrap TBadCode
+      end = mrun art mhost fuel entry args
+  | _ => False
+  end.
+Proof.
+  intros cm m sh names exports code sa art mhost choose rounds fuel entry args Hok Hs W Hle Hb.
+  rewrite (to_machine_s_artifact_of_thm _ _ _ _ _ _ _ Hok Hs) in Hb. inversion Hb; subst art.
+  apply stored_and_resumed_equiv_thm; assumption.
 Qed.
